@@ -306,11 +306,73 @@ func C15Catalogue() []*Request {
 	return out
 }
 
+// C15ClashCatalogue: for every collection the generators sort (header names: annotations.CombineHeaders;
+// enum full names: tscommon OrderedEnums) or keep in definition order (schemas, paths, query parameters,
+// enum values), pairs of names that are DIFFERENT but equal under a plausible coarser key — case,
+// '-' vs '_', trailing slash.  A sort by anything coarser than the exact name leaves such a pair in
+// the order the Go map happened to yield: these few requests are repeated often enough (fresh
+// process = fresh map seed) that a 2-element clash escapes with probability 2^-(repeats).
+func C15ClashCatalogue() []*Request {
+	var out []*Request
+	hs := func(names ...string) []*Header {
+		var l []*Header
+		for _, n := range names {
+			l = append(l, &Header{Name: n, Type: "string", Required: true})
+		}
+		return l
+	}
+	{
+		id := "ordclashhdr"
+		pkg := id + ".v1"
+		svc := Svc("Hdr", "/h",
+			RPC("Case", pkg+".Req", pkg+".Resp", "POST", "/case").WithHeaders(hs("X-Request-ID", "x-tenant", "X-TRACE")...),
+			RPC("Dash", pkg+".Req", pkg+".Resp", "POST", "/dash").WithHeaders(hs("X_Api_Key", "X-Api_Key", "X-Other")...),
+			RPC("Both", pkg+".Req", pkg+".Resp", "PUT", "/both").WithHeaders(hs("x-request-id", "X-REQUEST-ID", "X-Api-key")...),
+		).WithHeaders(hs("X-Request-Id", "X-Tenant", "X-Trace", "X-Api-Key")...)
+		r := buildReq(id, nil, []*Message{M("Req", F("id", 1, "string")), M("Resp", F("ok", 1, "bool"))}, svc)
+		r.Tags = []string{"order", "clash"}
+		out = append(out, r)
+	}
+	{ // enum types, enum values, messages whose names differ only in case; query parameters and paths likewise
+		id := "ordclashnames"
+		pkg := id + ".v1"
+		enums := []*Enum{E("Color", "COLOR_UNSPECIFIED", "COLOR_RED"), E("COLOR", "C_UNSPECIFIED", "C_RED") /* enum VALUES equal up to case are refused by the descriptor pool itself */, E("color", "LC_UNSPECIFIED", "LC_ONE")}
+		msgs := []*Message{
+			M("Item", F("a", 1, "string"), F("c1", 2, "", EnumT(pkg+".Color")), F("c2", 3, "", EnumT(pkg+".COLOR")), F("c3", 4, "", EnumT(pkg+".color"))),
+			M("ITEM", F("b", 1, "string"), F("item", 2, "", Msg(pkg+".Item"))),
+			M("Resp", F("one", 1, "", Msg(pkg+".Item")), F("two", 2, "", Msg(pkg+".ITEM"))),
+			M("Q", F("page", 1, "string", Query("page", false)), F("page_upper", 2, "string", Query("Page", false)), F("page_caps", 3, "string", Query("PAGE", false))),
+			M("Req", F("id", 1, "string")),
+		}
+		svc := Svc("Names", "/n",
+			RPC("ListLower", pkg+".Q", pkg+".Resp", "GET", "/items"),
+			RPC("ListSlash", pkg+".Q", pkg+".Resp", "GET", "/items/"),
+			RPC("ListUpper", pkg+".Q", pkg+".Resp", "GET", "/Items"),
+			RPC("PostLower", pkg+".Req", pkg+".Resp", "POST", "/items"),
+			RPC("PostUpper", pkg+".Req", pkg+".Resp", "POST", "/ITEMS"),
+		)
+		r := buildReq(id, enums, msgs, svc)
+		r.Tags = []string{"order", "clash"}
+		out = append(out, r)
+	}
+	return out
+}
+
+func hasTag(r *Request, tag string) bool {
+	for _, t := range r.Tags {
+		if t == tag {
+			return true
+		}
+	}
+	return false
+}
+
 func CheckC15(run *Run) {
 	run.Proof = CheckProofs("C15")
 	run.Prepare()
-	reqs := C15Catalogue()
+	reqs := append(C15ClashCatalogue(), C15Catalogue()...)
 	repeats := 3
+	clashRepeats := 24 // 2^-24 chance to miss a two-name clash left in map order
 	if run.Tier == "thorough" {
 		repeats = 12
 		reqs = append(reqs, RuntimeCatalogue()...)
@@ -345,7 +407,11 @@ func CheckC15(run *Run) {
 		add := func(name string, b *c15Shape, subjects []string, common bool) {
 			cmps = append(cmps, &cmp{req: r, name: name, a: base, b: b, subjects: subjects, common: common})
 		}
-		for k := 0; k < repeats; k++ {
+		n := repeats
+		if hasTag(r, "clash") {
+			n = clashRepeats
+		}
+		for k := 0; k < n; k++ {
 			add(fmt.Sprintf("repeat-%d", k), &c15Shape{name: r.ID, files: r.Files, gen: gen}, gen, false)
 		}
 		add("gomaxprocs-1", &c15Shape{name: r.ID, files: r.Files, gen: gen, env: []string{"GOMAXPROCS=1"}}, gen, false)
